@@ -58,3 +58,18 @@ CLAIMS["C17"] = {
     "technique": "static analysis: expression-shape lint (adjoint composition, einsum label repetition), exact call-graph "
                  "closure for raise sites, alias check for copy-before-convert",
 }
+
+CLAIMS["C18"] = {
+    "text": "Decides structural necessary conditions of 'each cost metric equals its definition, including with default "
+            "arguments': every attribute evaluate() reads is definitely assigned on every path of the constructor chain; the "
+            "literal label lists that drive counting are duplicate-free, made of unitary gate classes and cover every unitary "
+            "class both compilers accept; every label literal is produced by some class name / add_labels / register-type "
+            "description (a misspelt label silently counts nothing); label lookups cannot raise KeyError; rewrites inside a "
+            "metric act on a copy. Quantifies over all constructor and evaluate paths, hence all circuits. Does not decide "
+            "that depth, _max_depth and reg_gate_history compute the graph quantities.",
+    "ref": "DESIGN.md §5.18",
+    "note": "Trusted: CircuitDAG.depth/_max_depth/reg_gate_history as named. One named exception: Metrics.weighting_func "
+            "(advisory; unsupported argument type only).",
+    "technique": "static analysis: definite-assignment flow over constructor chains, literal-table lint against the "
+                 "class hierarchy and the label vocabulary, guard-dominance check, copy-before-mutate alias check",
+}
